@@ -208,7 +208,7 @@ def strategy(tier):
 
 
 def budget(tier):
-    return 120 if tier == "quick" else 3000
+    return 300 if tier == "quick" else 3000
 
 
 def write_and_read(recipe, name):
